@@ -191,6 +191,10 @@ pub fn gen(out: &mut Out, thorough: bool) {
         }
         out.count_n("every_run_length_docs", n);
     }
+    // characters that alias a significant one under a truncating cast / a class test / a table index, at
+    // every position of documents covering every token type and right after token prefixes of every
+    // length 0..=40 (shared with C01): no panic, whatever the verdict
+    crate::parse::stream_aliasing(out, &crate::parse::ALL_OPTS);
     // random bytes and random damage through the byte entry point, all option records
     let n_rand = if thorough { 200_000 } else { 30_000 };
     for i in 0..n_rand {
